@@ -46,7 +46,10 @@ def rand_change(rng, text):
     # after sorting by model offset the range must also be ordered as a pair of positions (overshooting columns can disagree)
     if (p["line"], p["character"]) > (q["line"], q["character"]): q = dict(p)
     ch = {"range": {"start": p, "end": q}, "text": rand_text(rng, rng.choice([0, 0, 1, 1, 2, 5, 12]))}
-    if rng.random() < .3: ch["rangeLength"] = 0
+    if rng.random() < .3:
+        # the deprecated optional member, with its correct value: the length of the replaced range in UTF-16 code units
+        a = lspmodel.offset(text, p["line"], p["character"], spans); b = lspmodel.offset(text, q["line"], q["character"], spans)
+        ch["rangeLength"] = u16len(text[a:b])
     return ch
 
 
